@@ -1,5 +1,6 @@
 import NurbsVerif.Model.Knots2
 import NurbsVerif.Lemmas.InsertModel
+import NurbsVerif.Lemmas.InsertAll
 
 /-!
 # C05  Knot refinement never changes the shape
@@ -72,6 +73,17 @@ theorem insert_fold_lengths (p : ℕ) (tol : K) (X : List K) : ∀ (U : List K) 
     constructor
     · rw [h1]; simp only [insertOne, knotInsertionKv, List.length_append, List.length_take, List.length_replicate, List.length_drop]; omega
     · rw [h2]; simp only [insertOne, knotInsertion_length]; omega
+
+/-- **Refinement never changes the shape (curves).**  The model of `helpers.knot_refinement` is the fold
+    of `insertOne` over `X`; if every knot of `X` is admissible when its turn comes (`RefineOk`: inside
+    the domain, multiplicity as the library computes it, below the degree) then every point of a
+    well-formed curve is unchanged, for every parameter of the domain and every coordinate. -/
+theorem refine_preserves_curve (p d : ℕ) (tol : K) (X : List K) (st : List K × List (List K))
+    (hwf : CurveWF p d st.1 st.2) (hok : RefineOk p tol st X) (u : K)
+    (hlo : fnOf st.1 p ≤ u) (hhi : u ≤ fnOf st.1 st.2.length) (j : ℕ) :
+    (curvePoint p (fnOf (X.foldl (insertOne p tol) st).1) (X.foldl (insertOne p tol) st).2 u).getD j 0
+      = (curvePoint p (fnOf st.1) st.2 u).getD j 0 :=
+  refine_fold_preserves_curve p d tol X st hwf hok u hlo hhi j
 
 /-- non-vacuity -/
 example : densify ([0, 1/2, 1] : List ℚ) = [0, 1/4, 1/2, 3/4, 1] := by norm_num [densify]
